@@ -5,7 +5,7 @@ import os
 from .. import common as C
 
 ID = "C03"
-COQ_TARGETS = ["Tie/C03.vo", "Tie/C03mro.vo", "Tie/C03leg.vo", "Properties/C03.vo"]
+COQ_TARGETS = ["Tie/C03.vo", "Tie/C03mro.vo", "Tie/C03leg.vo", "Tie/C03env.vo", "Properties/C03.vo"]
 PROPERTY_FILE = "Properties/C03.v"
 TIE = "Tie.C03"
 DRIVER = "c03_driver.py"
@@ -65,7 +65,7 @@ def regenerate(run):
                                          "generated": "coq/Gen/RoKernel.v", "ok": not errs}
     # the ties (model + Spec oracle) do not depend on the generated kernel and must exist even when the
     # equality proofs over a changed kernel fail
-    ok, out = C.coq_make(["Tie/C03.vo", "Tie/C03mro.vo", "Tie/C03leg.vo"])
+    ok, out = C.coq_make(["Tie/C03.vo", "Tie/C03mro.vo", "Tie/C03leg.vo", "Tie/C03env.vo"])
     if not ok:
         errs.append("the C03 ties do not build:\n" + out[-2000:])
     return errs
@@ -414,6 +414,52 @@ def extra(run, impl, known):
                 "legacy environment (mode %s): model and implementation differ on hierarchy %d" % (mode, j),
                 {"property": ID, "kind": "correspondence broken (legacy environment)", "mode": mode,
                  "case": lcases[j], "observed": res["obs"][j]}, "legacyenv_tie_%s_%d" % (mode, j), no_input=True)
+
+    # (4) explicit arguments versus the process-wide settings: under STRICT_IRO=1 / USE_LEGACY_IRO=1 every node
+    # (stand-in objects, and interfaces whose inconsistent bases got in through an assignment that raised) is
+    # asked is_consistent, ro(strict=False), ro(strict=True), ro()
+    ecases = []
+    for k, nodes in enumerate(graphs[:len(graphs) // 2] + [c["nodes"] for c in FIXED[:4]]):
+        if all(nd["kind"] == "iface" for nd in nodes):
+            ecases.append({"stream": "envsettings", "variant": "objs" if k % 2 else "ifaces", "nodes": nodes})
+    for which, envno, var in (("strict", 1, "ZOPE_INTERFACE_STRICT_IRO"), ("legacy", 2, "ZOPE_INTERFACE_USE_LEGACY_IRO")):
+        for mode in ("c", "py"):
+            st, res = impl.run(DRIVER, {"cases": ecases, "env_settings": which}, mode,
+                               env={var: "1", "C03_KEEP_ENV": "1"})
+            if st != "ok":
+                raise C.HarnessError("env-settings driver failed: %r" % (res,))
+            terms, incons = [], 0
+            for ob in res["obs"]:
+                if "exc" in ob:
+                    terms.append("(%d, [(0, [0])], [0], [])" % envno)      # rejected by both checks
+                    continue
+                incons += any(o[2] is None for o in ob["obs"])
+                terms.append("(%d, %s, %s, %s)" % (envno, cgraph(ob["graph"]), cnl(ranks_of(ob["graph"])), C.clist([
+                    "(%d, %s, %s, %s, %s)" % (o[0], C.copt(o[1], cnl), C.copt(o[2], cnl), C.copt(o[3], cnl),
+                                              C.copt(o[4], C.cbool)) for o in ob["obs"]])))
+            bad_m, bad_s, errors = C.coq_eval_cases("Tie.C03env", terms, shard=150)
+            if errors:
+                raise C.HarnessError("coqc failed on env-settings cases: " + json.dumps(errors)[:2000])
+            run.coverage["env_%s_hierarchies_%s" % (which, mode)] = len(terms)
+            run.coverage["env_%s_inconsistent_%s" % (which, mode)] = incons
+            for j in bad_s[:3]:
+                run.add_violation(
+                    "with %s=1 (mode %s) an explicit strict/use_legacy argument is not honoured, or is_consistent "
+                    "raises / answers wrongly" % (var, mode),
+                    {"property": ID, "kind": "implementation contradicts Spec on this input", "mode": mode,
+                     "env": {var: "1"}, "case": ecases[j], "observed": res["obs"][j],
+                     "columns": "node, ro(strict=False, use_legacy_ro=False), ro(strict=True, use_legacy_ro=False), "
+                                "ro(), is_consistent  (null = InconsistentResolutionOrderError)",
+                     "python": "# %s=1 PURE_PYTHON=%s; variant %s: 'objs' = plain objects with __bases__, 'ifaces' = "
+                               "InterfaceClass (created without bases and assigned when creation raises)\n# nodes: %r"
+                               % (var, "1" if mode == "py" else "0", ecases[j]["variant"], ecases[j]["nodes"])},
+                    "envset_%s_%s_%d" % (which, mode, j))
+            for j in [k for k in bad_m if k not in set(bad_s)][:3]:
+                run.add_violation(
+                    "%s=1 (mode %s): model and implementation differ on hierarchy %d" % (var, mode, j),
+                    {"property": ID, "kind": "correspondence broken (environment settings)", "mode": mode,
+                     "case": ecases[j], "observed": res["obs"][j]}, "envset_tie_%s_%s_%d" % (which, mode, j),
+                    no_input=True)
 
 
 TECHNIQUE = ("Coq proof over a Gallina transcription of ro.py / _calculate_sro against a textbook-C3 Spec; the transcription "
